@@ -1,0 +1,29 @@
+//go:build verif
+
+// Contracts for the construction options that carry limits and the storage mode into the
+// cache (C18, C19, C20), checked by /verif (govc). Comment-only file.
+
+package disk
+
+// the function literal of WithMaxBlobSize: non-positive limits are refused, others are installed unchanged
+//@ func WithMaxBlobSize$1(c *CacheConfig) error
+//@   serves C18 C19
+//@   requires c != nil && c.diskCache != nil
+//@   modifies c.diskCache.maxBlobSize
+//@   ensures[C19] refused: size <= 0 ==> (result != nil && c.diskCache.maxBlobSize == old(c.diskCache.maxBlobSize))
+//@   ensures[C18] installed: size > 0 ==> (result == nil && c.diskCache.maxBlobSize == size)
+
+//@ func WithProxyMaxBlobSize$1(c *CacheConfig) error
+//@   serves C18 C19
+//@   requires c != nil && c.diskCache != nil
+//@   modifies c.diskCache.maxProxyBlobSize
+//@   ensures[C19] refused: maxProxyBlobSize <= 0 ==> (result != nil && c.diskCache.maxProxyBlobSize == old(c.diskCache.maxProxyBlobSize))
+//@   ensures[C18] installed: maxProxyBlobSize > 0 ==> (result == nil && c.diskCache.maxProxyBlobSize == maxProxyBlobSize)
+
+// storage mode: exactly the two published modes, anything else is refused
+//@ func WithStorageMode$1(c *CacheConfig) error
+//@   serves C19 C20
+//@   requires c != nil && c.diskCache != nil
+//@   modifies c.diskCache.storageMode
+//@   ensures[C19] modes: (mode == "zstd" ==> (result == nil && c.diskCache.storageMode == 1)) && (mode == "uncompressed" ==> (result == nil && c.diskCache.storageMode == 0)) &&
+//@       ((mode != "zstd" && mode != "uncompressed") ==> (result != nil && c.diskCache.storageMode == old(c.diskCache.storageMode)))
